@@ -948,7 +948,7 @@ class CookScatter(FragmentTask):
 
 
 def cook_tasks(tier):
-    return [CookTask(CFILES[0]), CookTask(CFILES[1]), CookTaskList(), CookScatter(), CookScatter(serial=True), CookLevel(True), CookLevel(False)]
+    return [CookTask(CFILES[0]), CookTask(CFILES[1]), CookTaskList(), CookScatter(), CookScatter(serial=True), CookLevel(True), CookLevel(False), __import__("props.scatter_u", fromlist=["cook_scatter"]).cook_scatter()]
 
 
 def cook_canaries():
